@@ -389,6 +389,12 @@ func (n *Net) answer(s network.Stream, req *p2p_pb.HeaderRequest, a Answer) {
 			hs[i] = mutate(hs[i], func(c *vk.H) { c.Chain = "other-chain" })
 		}
 		writeHeaders(s, hs)
+	case "empty-chain": // well-formed headers that carry no chain id at all
+		hs := append([]*vk.H(nil), base...)
+		for i := range hs {
+			hs[i] = mutate(hs[i], func(c *vk.H) { c.Chain = "" })
+		}
+		writeHeaders(s, hs)
 	case "invalid": // fails Validate
 		hs := append([]*vk.H(nil), base...)
 		if len(hs) > 0 {
